@@ -17,6 +17,7 @@ RULE = ('pages of 1-4 blocks (rectangles / polygons inside the page) x 1-5 lines
         'tokens {Arabic word, Latin word, number, delimiter, Arabic delimiter, blank, bracket}. non-trivial = page with a multi-word line; distinct = hash of the page description Astral-plane and entity-like words; padded logit matrices whose window starts after frame 0; lines of more than 1000 frames. NFD words; line outlines without extent; confidences left by an earlier stage.')
 RULE += ' Round 6: Arabic lines in presentation forms only, script decided by the harness.'
 RULE += ' Round 7: A reading order other than the held region order; line indices other than the held line order.'
+RULE += ' Round 8: A line over a two-letter alphabet; directional marks at script boundaries.'
 ASSUMPTIONS = ['"recognised page": every line has baseline (2 px .. block width, slope within +-10 deg), polygon, positive heights, and lies inside its block; blocks lie inside the page',
                'logits and character table are both present or both absent', 'expected words on Arabic lines use the repository\'s own order conversion (itself checked for permutation and involution)',
                'ALTO TextLine elements carry no id: lines are matched by order within their block']
